@@ -11,7 +11,8 @@ Inductive op :=
 | OPush (x : A) | OPop | OGet (i : nat) | OSet (i : nat) (x : A)
 | OIndex (i : nat) | OIndexSet (i : nat) (x : A)
 | OSlices | OIter | OMap (f : A -> A) | ODrain (k : nat) | OExtend (xs : list A)
-| OLen | OIsEmpty | OIsFull | OMaxLen.
+| OLen | OIsEmpty | OIsFull | OMaxLen
+| ODrainNth (n : nat) | OIterNth (n : nat) | OIterRev | OIterLast.
 
 Inductive obs :=
 | VOpt (o : option A) | VVal (x : A) | VBool (b : bool) | VNat (n : nat)
@@ -40,6 +41,12 @@ Definition step (b : bounded A) (o : op) : res (bounded A * obs) :=
   | OIsEmpty => Ok (b, VBool (is_empty b))
   | OIsFull => Ok (b, VBool (is_full b))
   | OMaxLen => Ok (b, VNat (max_len b))
+  (* drain().nth(n): n+1 pops through the draining iterator, the last one is returned *)
+  | ODrainNth n => let* r := drain (S n) b in Ok (fst r, VOpt (nth_error (snd r) n))
+  (* iter().nth(n) / iter().rev() / iter().last(): adaptors over the chained slice iterators *)
+  | OIterNth n => let* r := iter b in Ok (b, VOpt (nth_error r n))
+  | OIterRev => let* r := iter b in Ok (b, VList (rev r))
+  | OIterLast => let* r := iter b in Ok (b, VOpt (nth_error r (length r - 1)))
   end.
 
 Fixpoint run (b : bounded A) (ops : list op) : res (bounded A * list obs) :=
@@ -74,6 +81,10 @@ Definition spec_step (cap : nat) (q : list A) (o : op) : list A * obs :=
   | OIsEmpty => (q, VBool (length q =? 0))
   | OIsFull => (q, VBool (length q =? cap))
   | OMaxLen => (q, VNat cap)
+  | ODrainNth n => (skipn (S n) q, VOpt (nth_error q n))
+  | OIterNth n => (q, VOpt (nth_error q n))
+  | OIterRev => (q, VList (rev q))
+  | OIterLast => (q, VOpt (nth_error q (length q - 1)))
   end.
 
 (* the two slices are determined only up to their concatenation *)
